@@ -110,8 +110,9 @@ func runC05Subset(c c05Subset) string {
 	select {
 	case msg := <-done:
 		return msg
-	case <-time.After(20 * time.Second):
-		return "the read did not return within 20s (handler loop does not terminate)"
+	case <-time.After(hangBound()):
+		noteHang()
+		return "the read did not return within the bound (handler loop does not terminate)"
 	}
 }
 
@@ -285,7 +286,7 @@ func runC05Race(c c05Race, schedule []int, trace *[][2]int) (string, bool) {
 	running := nActors
 	step := 0
 	switches, lastActor := 0, -1
-	timeout := time.After(30 * time.Second)
+	timeout := time.After(hangBound())
 	for {
 		for running > 0 {
 			select {
@@ -297,7 +298,7 @@ func runC05Race(c c05Race, schedule []int, trace *[][2]int) (string, bool) {
 				}
 				running--
 			case <-timeout:
-				return "an actor neither finished nor issued a backend request within 30s", false
+				return "an actor neither finished nor issued a backend request within the bound", false
 			}
 		}
 		var enabled []int
